@@ -77,7 +77,8 @@ fn strings(alphabet: &[u16], max_len: usize) -> Vec<Vec<u16>> {
 fn main() {
     // letters, space, tab, newline, double quote, backslash, a non-ASCII unit
     let alphabet: [u16; 7] = [b'a' as u16, b' ' as u16, b'\t' as u16, b'\n' as u16, b'"' as u16, b'\\' as u16, 0x00e9];
-    let long = strings(&alphabet, 4);     // 2801 strings
+    let thorough = std::env::args().nth(1).map(|a| a == "thorough").unwrap_or(false);
+    let long = strings(&alphabet, if thorough { 6 } else { 4 });     // 2801 strings (thorough: 137257)
     let short = strings(&alphabet, 2);    // 57 strings
     let mut checked = 0u64;
     let mut bad = 0u64;
